@@ -313,7 +313,7 @@ func TestC06_Workloads(t *testing.T) {
 	docs := gen.Doc(gen.DocOpts{NestedArrays: 0.2})
 	shard, _ := stats.Shard()
 	cur := filepath.Join(os.Getenv("VERIF_STATS_DIR"), fmt.Sprintf("c06-current.%d.case", shard))
-	rapidRun(t, rec, 20, 300, func(rt *rapid.T) {
+	rapidRun(t, rec, 20, 150, func(rt *rapid.T) {
 		w := c06Workload{
 			Config:     rapid.SampledFrom([]string{"shared", "shared", "own", "rotated", "register"}).Draw(rt, "config"),
 			Goroutines: rapid.SampledFrom([]int{2, 4, 8, 16, 32}).Draw(rt, "goroutines"),
